@@ -93,6 +93,13 @@ def Out.ofEvs (evs : List Ev) : Out := { items := evs.map .ev }
   simp [Out.errs, List.filterMap_append]
 @[simp] theorem Out.append_evs (a b : Out) : (a ++ b).evs = a.evs ++ b.evs := by
   simp [Out.evs, List.filterMap_append]
+theorem Out.ext' {a b : Out} (h : a.items = b.items) : a = b := by
+  cases a; cases b; simp_all
+@[simp] theorem Out.empty_items : ({} : Out).items = [] := rfl
+@[simp] theorem Out.empty_append (a : Out) : ({} : Out) ++ a = a := Out.ext' (by simp)
+@[simp] theorem Out.append_empty (a : Out) : a ++ ({} : Out) = a := Out.ext' (by simp)
+theorem Out.append_assoc (a b c : Out) : a ++ b ++ c = a ++ (b ++ c) := Out.ext' (by simp [List.append_assoc])
+@[simp] theorem Out.ofEvs_nil : Out.ofEvs [] = {} := rfl
 @[simp] theorem Out.empty_errs : ({} : Out).errs = [] := rfl
 @[simp] theorem Out.empty_evs : ({} : Out).evs = [] := rfl
 
